@@ -9,8 +9,14 @@ package http_api
 // deadline: the views of nsqadmin legitimately wait for slow upstreams (C18 "partial view + warning" for every subset of failing upstreams) and
 // /pub, /mpub bodies may be large - an answer is never cut short by the server itself. ((*http.Server).Serve: extern in lib/trusted/r5H.spec,
 // `modifies *` because the handlers run inside the accept loop; what the server carried is recorded in the r5HSrv* ghosts.)
+// (round 7) what Serve returned is recorded (r7ServeReturns / r7ServeResult) for the goroutine literals that report it (Main$N of the daemons).
+//@ ghost r7ServeReturns int
+//@ ghost r7ServeResult error
+//@ ghostgroup r7ServeReturns, r7ServeResult
 //@ func Serve(listener net.Listener, handler http.Handler, proto string, logf lg.AppLogFunc) error
 //@   props C18 C17 C10 C15
+//@   onreturn r7ServeReturns := r7ServeReturns + 1
+//@   onreturn r7ServeResult := result
 //@   requires listener != nil && logf != nil
 //@   ensures[one-server] r5HSrvServes == old(r5HSrvServes) + 1
 //@   ensures[serves-the-given-handler-on-the-given-listener] r5HSrvHandler == handler && r5HSrvListener == listener
